@@ -6,5 +6,5 @@ patch=$1; shift
 mkdir -p /tmp/verif-${DEVWT:-wt-dev}/evidence; ln -sfn /verif/checker /tmp/verif-${DEVWT:-wt-dev}/checker; cp /verif/known-findings.json /tmp/verif-${DEVWT:-wt-dev}/
 cd /tmp/${DEVWT:-wt-dev} && git checkout -q --detach $(git -C /repo rev-parse HEAD) && git checkout -q -- . && git clean -fdq
 [ "$patch" != "-" ] && { git apply $patch || { echo "patch does not apply"; exit 2; }; }
-for p in "$@"; do /verif/bin/bv-dev -repo /tmp/${DEVWT:-wt-dev} -verif /tmp/verif-${DEVWT:-wt-dev} -prop $p -tier quick 2>&1 | grep -E "violated|undecided|VIOLATION| quick:" | cut -c1-420; done
+for p in "$@"; do /verif/bin/${BVDEV:-bv-dev} -repo /tmp/${DEVWT:-wt-dev} -verif /tmp/verif-${DEVWT:-wt-dev} -prop $p -tier quick 2>&1 | grep -E "violated|undecided|VIOLATION| quick:" | cut -c1-420; done
 git checkout -q -- .
